@@ -3,5 +3,7 @@
 namespace hgvc
 {
     using Dtsl = TSL<TS<Int>>;      // dynamic (unsized) list: grows as elements are written
+    using TsdTsd = TSD<Int, TSD<Int, TS<Int>>>;
+    static RegisterShape r_tsd_tsd("TSD_TSD", [](Scenario &s) { run_shape<TsdTsd>(s); });
     static RegisterShape r_dtsl("DTSL", [](Scenario &s) { run_shape<Dtsl>(s); });
 }  // namespace hgvc
